@@ -26,10 +26,18 @@ VARIABLES nIn, gates, cur, nInst, series, late, done
 vars == <<nIn, gates, cur, nInst, series, late, done>>
 NoCur == [op |-> "", a |-> <<>>]
 NoSeries == [input |-> 0 - 1, gate |-> 0 - 1, pattern |-> "none"]
-\* which instances take the dependent input from the previous instance: all of them, every other one, only the second
-Patterns == {"chain", "alt", "single"}
-Dep(k) == /\ series # NoSeries /\ k > 0
-          /\ (series.pattern = "chain" \/ (series.pattern = "alt" /\ k % 2 = 1) \/ (series.pattern = "single" /\ k = 1))
+\* which instance k takes the dependent input from (Src(k), -1 for none): the previous one for all / every other / only the
+\* second instance; "rev": the NEXT one (the instances have to be solved in reverse order); "rot": 0 <- 2 and 1 <- 0 (solving
+\* order 2, 0, 1, 3: the permutation of the instances is a 3-cycle, not its own inverse)
+Patterns == {"chain", "alt", "single", "rev", "rot"}
+Src(k) == IF series = NoSeries THEN 0 - 1
+          ELSE CASE series.pattern = "chain"  -> IF k > 0 THEN k - 1 ELSE 0 - 1
+                 [] series.pattern = "alt"    -> IF k % 2 = 1 THEN k - 1 ELSE 0 - 1
+                 [] series.pattern = "single" -> IF k = 1 THEN 0 ELSE 0 - 1
+                 [] series.pattern = "rev"    -> IF k < nInst - 1 THEN k + 1 ELSE 0 - 1
+                 [] series.pattern = "rot"    -> IF k = 0 THEN 2 ELSE IF k = 1 THEN 0 ELSE 0 - 1
+                 [] OTHER -> 0 - 1
+Dep(k) == Src(k) >= 0
 
 \* variables are numbered inputs first (0..nIn-1), then gates
 Refs == 0..(nIn + Len(gates) - 1)
@@ -53,7 +61,8 @@ WellFormed == /\ Len(gates) >= 1 /\ cur = NoCur
 
 \* optionally: input `input` of instance k+1 is the value of output gate `gate` of instance k
 ChooseSeries == /\ ~done /\ WellFormed /\ series = NoSeries /\ nInst > 1
-                /\ \E i \in 0..(nIn - 1), g \in 1..Len(gates), pt \in Patterns : IsOutput(g) /\ series' = [input |-> i, gate |-> g, pattern |-> pt]
+                /\ \E i \in 0..(nIn - 1), g \in 1..Len(gates), pt \in Patterns :
+                      IsOutput(g) /\ (pt = "rot" => nInst >= 4) /\ series' = [input |-> i, gate |-> g, pattern |-> pt]
                 /\ UNCHANGED <<nIn, gates, cur, nInst, late, done>>
 
 (* ---- direct evaluation over F_P ------------------------------------------- *)
@@ -68,12 +77,11 @@ EvalAll(vals, k) == IF k > Len(gates) THEN vals
                     ELSE EvalAll(Append(vals, EvalGate(gates[k].op, [j \in 1..Len(gates[k].a) |-> vals[gates[k].a[j] + 1]])), k + 1)
 \* probe inputs: instance t, input i -> (3 t + 5 i + 2) mod P ; with a series dependency the value comes from the previous instance
 ProbeIn(t, i) == (3 * t + 5 * i + 2) % P
-RECURSIVE Instances(_, _)
-Instances(t, prev) ==
-  IF t >= nInst THEN <<>>
-  ELSE LET ins == [i \in 1..nIn |-> IF series # NoSeries /\ series.input = i - 1 /\ Dep(t) THEN prev[nIn + series.gate] ELSE ProbeIn(t, i - 1)]
-           vals == EvalAll(ins, 1)
-       IN <<vals>> \o Instances(t + 1, vals)
+RECURSIVE InstVals(_)
+\* the values of instance t: its dependent input is an output of instance Src(t) (the dependency relation is acyclic)
+InstVals(t) == LET ins == [i \in 1..nIn |-> IF series # NoSeries /\ series.input = i - 1 /\ Dep(t) THEN InstVals(Src(t))[nIn + series.gate] ELSE ProbeIn(t, i - 1)]
+               IN EvalAll(ins, 1)
+Instances(t, prev) == [k \in 1..nInst |-> InstVals(k - 1)]
 
 \* Series takes an OUTPUT variable of the circuit: the dependency must still be on an output when the topology is complete
 LateOK == late => (nIn = 2 /\ \A j \in 1..Len(gates[1].a) : gates[1].a[j] # 1)
